@@ -250,6 +250,11 @@ func (g *vgen) fill(v reflect.Value, p tags.Params) {
 			// the model outside the `regular` values that every theorem about it assumes.
 			b = b[:len(b)-1]
 		}
+		if !g.cleanBits && g.rng.Intn(8) == 0 {
+			// the caller's buffer is longer than the bit string (a 4-octet gNB id with a bit length of 24): the value is the first
+			// n bits, the surplus octets are not part of it
+			b = append(b, byte(g.rng.Intn(256)), byte(g.rng.Intn(256)))[:len(b)+1+g.rng.Intn(2)]
+		}
 		v.Set(reflect.ValueOf(aper.BitString{Bytes: b, BitLength: uint64(n)}))
 		return
 	case aper.OctetStringType:
